@@ -64,7 +64,7 @@ def generate(repo):
     _need(md, """fn contains_exact_word(&self, word: &[char]) -> bool {
         let normalized = word.normalized();
         if let Some(found) = self.word_map.get_with_chars(normalized.as_ref()) {
-            if found.canonical_spelling.as_ref() == normalized.as_ref() { return true; }
+            if found.canonical_spelling.as_slice().normalized().as_ref() == normalized.as_ref() { return true; }
         }
         false
     }""", "MutableDictionary::contains_exact_word")
